@@ -25,6 +25,7 @@ type Spec struct {
 	Methods  []*MethodSpec        `json:"methods"`
 	Funcs    []*FuncSpec          `json:"funcs,omitempty"`
 	Enums    map[string]*EnumSpec `json:"enums,omitempty"`
+	EnumPairs []*EnumPair         `json:"enumPairs,omitempty"`
 	MaxDepth int                  `json:"maxDepth,omitempty"`
 	MaxFaults int                 `json:"maxFaults,omitempty"`
 }
@@ -71,6 +72,8 @@ type MethodEvent struct {
 	SrcType     string      `json:"src_type"`
 	TgtType     string      `json:"tgt_type"`
 	Digests     int         `json:"distinct_sources"`
+	ExpectedPanics int      `json:"expected_panics"`
+	ExpectedErrors int      `json:"expected_errors"`
 	FaultRuns   int         `json:"fault_runs"`   // executions under a non-empty fault plan
 	FaultSites  int         `json:"fault_sites"`  // distinct fallible call sites enumerated
 	PathChecks  int         `json:"path_checks"`  // error paths compared with the expected location
@@ -146,6 +149,10 @@ func RunCase(o *Out, specJSON string, callables map[string]any) {
 		Callables: map[string]reflect.Value{},
 		Funcs:     map[string]*FuncSpec{},
 		Enums:     spec.Enums,
+		EnumPairs: map[string]*EnumPair{},
+	}
+	for _, p := range spec.EnumPairs {
+		r.EnumPairs[p.Src+"->"+p.Tgt] = p
 	}
 	for k, c := range callables {
 		r.Callables[k] = reflect.ValueOf(c)
@@ -317,6 +324,17 @@ func runMethod(o *Out, spec *Spec, r *Ref, m *MethodSpec) {
 		}
 		res, perr, pstack := safeCall(fn, args)
 		if perr != "" {
+			// a panic is the documented outcome only for the enum @panic action
+			expected := false
+			if spec.has("value") && !m.NoValue && len(r.EnumPairs) > 0 {
+				_, mayPanic := r.enumOutcomes(snap)
+				expected = mayPanic
+			}
+			if expected {
+				ev.Judged++
+				ev.ExpectedPanics++
+				continue
+			}
 			ev.Panics++
 			addViol(Violation{Kind: "panic", Method: m.Name, ValueI: i, Detail: perr + "\n" + pstack, Source: srcStr})
 			continue
@@ -349,8 +367,15 @@ func runMethod(o *Out, spec *Spec, r *Ref, m *MethodSpec) {
 			case *Unsupported:
 				ev.Abstained++
 				ev.AbstainWhy = e.Why
+			case *RefPanic:
+				ev.Judged++
+				// with several failing elements the iteration order decides which one is hit first
+				if mayErr, _ := r.enumOutcomes(snap); !(mayErr && callErr != nil) {
+					addViol(Violation{Kind: "missing_panic", Method: m.Name, ValueI: i, Detail: e.Error(), Source: srcStr, Got: Format(out)})
+				}
 			case *RefError:
 				ev.Judged++
+				ev.ExpectedErrors++
 				if callErr == nil {
 					addViol(Violation{Kind: "missing_error", Method: m.Name, ValueI: i, Detail: e.Error(), Source: srcStr})
 				}
